@@ -35,7 +35,7 @@ SPEC_RV = {RS["RValue"]: True, RS["RValueTrivial"]: True, RS["RCValue"]: False, 
 FACTORIES = {"make_value": "RValue", "make_cvalue": "RCValue", "make_sp": "RShared", "make_up": "RUnique"}
 REFFNS = {"ref_of": "RRef", "cref_of": "RCRef", "ptr_of": "RPtr", "cptr_of": "RCPtr", "sp_of": "RShared", "bv_of": "RBoxed", "copy_of": "RValue"}
 CXXFNS = {"cxx_ref": "RRef", "cxx_sp": "RShared", "cxx_csp": "RSharedCRef", "cxx_ptr": "RPtr"}
-PARAMFNS = ["by_value", "by_ref", "by_cref", "by_ptr", "by_cptr", "by_sp", "by_csp", "by_bv"]
+PARAMFNS = ["by_value", "by_ref", "by_cref", "by_ptr", "by_cptr", "by_sp", "by_csp", "by_spref", "by_bv"]
 
 
 # ------------------------------------------------------------------------------------------------
@@ -511,7 +511,7 @@ class Exec:
             self.pop()      # the value of the block (a temporary of the evaluator) outlives the scope
         return res
 
-    FUN_CALL_STMTS = ("cxxcall", "callf", "calld", "keep", "cp", "release", "throw", "fail")
+    FUN_CALL_STMTS = ("cxxcall", "callf", "calld", "keep", "cp", "release", "throw", "fail", "reseat")
 
     def stmt(self, s, saving=True, want=False):
         base = self.tk
@@ -638,6 +638,28 @@ class Exec:
         c = p_cxx(self.xk)
         self.emit(1, v.path, c)
         self.kept.append(c)
+        self.call_end()
+
+    def st_reseat(self, name, n, saving=True):
+        """reseat(x, n) for void reseat(std::shared_ptr<Tracked> &p, int n) { p = std::make_shared<Tracked>(n); }
+        The shared_ptr lives in the Data block of the Boxed_Value: every handle that shares the block (here: the variable,
+        the argument copy of this call and its saved copy) refers to the new object afterwards.  Generated only where no
+        other handle shares the block (top level, variable never captured / bound / pushed by reference)."""
+        self.call_begin()
+        var = self.lookup(name)
+        a = self.ev_var(name)
+        sharing = [a.path]
+        if saving:
+            self.pk += 1
+            sp = p_par(self.lvl(), self.pk)
+            self.emit(1, a.path, sp)
+            sharing.append(sp)
+        self.live("in:reseat")
+        self.emit(22, var.path)
+        for p in sharing:
+            self.emit(5, p)
+            self.emit(1, var.path, p)
+        self.live("in:reseated")
         self.call_end()
 
     def st_release(self, saving=True):
@@ -923,6 +945,7 @@ def r_stmt(s, ind=0):
     if k == "declcall": return "var %s = %s(%s);" % (s[1], s[2], r_expr(s[3]))
     if k == "keep": return "keep(%s);" % r_expr(s[1])
     if k == "release": return "release_kept();"
+    if k == "reseat": return "reseat(%s, %d);" % (s[1], s[2])
     if k == "push": return "%s.%s(%s);" % (s[1], "push_back_ref" if (len(s) > 3 and s[3]) else "push_back", r_expr(s[2]))
     if k == "popback": return "%s.pop_back();" % s[1]
     if k == "clear": return "%s.clear();" % s[1]
@@ -1026,6 +1049,7 @@ class SV:
         self.params = 0        # closures: number of Tracked parameters
         self.alias = None      # containers: the SV whose structure is shared (auto& / closure capture)
         self.maybe_rv = False  # function parameters: the argument may have been a temporary
+        self.reseat_ok = False # the variable's Data block is shared with no other handle (see Exec.st_reseat)
 
     def root(self):
         return self.alias.root() if self.alias else self
@@ -1089,6 +1113,14 @@ class Gen:
 
     def pick(self, xs):
         return xs[self.rnd.randrange(len(xs))]
+
+    def shares_block(self, e):
+        """the expression hands the variable's own Boxed_Value (its Data block) to something that keeps it"""
+        if e and e[0] == "var":
+            for n, sv in self.vars(lambda s: True):
+                if n == e[1]:
+                    sv.reseat_ok = False
+                    return
 
     # ---- expressions producing a Tracked handle: (expr, sp_ok, const, borrowed-through, rv)
     def texpr(self, allow_temp=True, need_sp=False, need_nonconst=False, allow_borrowed_vars=True):
@@ -1156,7 +1188,7 @@ class Gen:
     def gen_stmt(self, budget, kind="plain", loopvar=None):
         r = self.rnd
         choices = [("decl", 10), ("touch", 8), ("cxxcall", 10), ("cp", 6), ("alias", 3), ("borrow", 4), ("declcall", 4), ("assign", 2),
-                   ("vec", 5), ("map", 4), ("obj", 3), ("owner", 2), ("keep", 3), ("closure", 4), ("bind", 2), ("calldef", 4), ("collect", 3)]
+                   ("vec", 5), ("map", 4), ("obj", 3), ("owner", 2), ("keep", 3), ("closure", 4), ("bind", 2), ("calldef", 4), ("collect", 3), ("reseat", 5)]
         if budget > 0 and self.depth_budget > 0:
             choices += [("block", 3), ("if", 2), ("cfor", 3), ("rfor", 4), ("try", 3)]
         if loopvar and kind == "cloop":
@@ -1182,7 +1214,8 @@ class Gen:
             src = [sv for nm0, sv in self.vars(lambda s: True) if nm0 == e[1]][0]
             if src.maybe_rv:
                 spok = src.sp_ok      # a parameter bound to a temporary is taken over, not copied
-        self.declare(nm, SV("T", self.cur_region, sp_ok=spok))
+        sv = self.declare(nm, SV("T", self.cur_region, sp_ok=spok))
+        sv.reseat_ok = spok and self.cur_region == 0 and not self.in_func
         return [("decl", nm, e)]
 
     def g_alias(self, budget, lv):
@@ -1223,6 +1256,8 @@ class Gen:
         if not owners:
             return self.g_decl(budget, lv)
         n, s = self.pick(owners)
+        if k not in ("copy_of", "sp_of", "bv_of"):
+            s.reseat_ok = False          # a non-owning handle to the object the variable owns now exists
         self.feat("borrow:" + k)
         if k in ("sp_of",) and not s.sp_ok:
             k = "ptr_of"
@@ -1253,8 +1288,8 @@ class Gen:
 
     def param_call(self):
         fn = self.pick(PARAMFNS)
-        need_sp = fn in ("by_sp", "by_csp")
-        need_nc = fn in ("by_ref", "by_ptr")
+        need_sp = fn in ("by_sp", "by_csp", "by_spref")
+        need_nc = fn in ("by_ref", "by_ptr", "by_spref")
         if fn in ("by_value", "by_cref", "by_ref") and self.rnd.random() < 0.25:
             self.feat("arg:converted")
             return fn, ("seed", self.rnd.randrange(1, 9))
@@ -1283,6 +1318,31 @@ class Gen:
         e, sp, cst, bor = self.texpr()
         self.feat("assign")
         return [("assign", n, e)]
+
+    def g_reseat(self, budget, lv):
+        """reseat(x, n) on a variable whose Data block nothing else shares, followed by uses of x through several
+        parameter shapes (const and non-const access paths) and member functions"""
+        cands = [(n, s) for n, s in self.tvars(owning=True, sp=True, nonconst=True) if s.reseat_ok and s.region == 0]
+        if self.in_func or self.cur_region != 0 or not cands:
+            return self.g_decl(budget, lv)
+        n, s = self.pick(cands)
+        self.feat("reseat")
+        out = [("reseat", n, self.rnd.randrange(1, 9))]
+        uses = ["by_cref", "by_cptr", "by_value", "by_bv", "by_ref", "by_ptr", "by_sp", "by_csp", "by_spref", "get", "id", "set"]
+        self.rnd.shuffle(uses)
+        for u in uses[: self.rnd.randrange(2, 6)]:
+            self.feat("reseat:then-" + u)
+            if u in ("get", "id", "set"):
+                out.append(("touch", ("var", n), u))
+            elif self.rnd.random() < 0.3:
+                nm = self.name("n")
+                self.declare(nm, SV("I", self.cur_region))
+                out.append(("declcall", nm, u, ("var", n)))
+            else:
+                out.append(("cxxcall", u, ("var", n)))
+        if self.rnd.random() < 0.5:
+            out.append(self.cp())
+        return out
 
     def g_keep(self, budget, lv):
         if self.kept and self.rnd.random() < 0.4:
@@ -1329,7 +1389,9 @@ class Gen:
                 rt.size += 1
                 return [("push", n, ("ctor", 2))]
             rt.size += 1
-            return [("push", n, ("var", self.pick(tv)[0]), True)]
+            e = ("var", self.pick(tv)[0])
+            self.shares_block(e)
+            return [("push", n, e, True)]
         if op == "pop":
             rt.size -= 1
             return [("popback", n)]
@@ -1420,6 +1482,8 @@ class Gen:
         cands = [n for n, s in self.tvars(owning=True)] + [n for n, s in self.vars(lambda s: s.kind in ("V", "M", "O"))]
         self.rnd.shuffle(cands)
         caps = list(extra_caps) + [c for c in cands[: self.rnd.randrange(0, 3)] if c not in extra_caps]
+        for c in caps:
+            self.shares_block(("var", c))
         nparams = 0 if noparams else self.rnd.randrange(0, 2)
         params = [self.name("p") for _ in range(nparams)]
         saved, saved_region = self.scopes, self.cur_region
@@ -1452,6 +1516,8 @@ class Gen:
             n, s = self.pick(fs)
             self.feat("closure:call")
             args = [self.texpr(allow_borrowed_vars=False)[0] for _ in range(s.params)]
+            for a in args:
+                self.shares_block(a)
             return [("callf", n, args)]
         extra = ()
         if lv and lv[1] == "V" and self.rnd.random() < 0.7:
@@ -1476,7 +1542,9 @@ class Gen:
         nm = self.name("g")
         self.declare(nm, SV("B", self.cur_region))
         self.feat("bind:new")
-        return [("decl", nm, ("bind", fn, ("var", self.pick(tv)[0])))]
+        e = ("var", self.pick(tv)[0])
+        self.shares_block(e)
+        return [("decl", nm, ("bind", fn, e))]
 
     def g_block(self, budget, lv):
         self.feat("block")
@@ -1642,6 +1710,8 @@ class Gen:
             nm = self.pick(list(self.defs))
         params, body = self.defs[nm]
         args = [self.texpr(allow_borrowed_vars=False)[0] for _ in params]
+        for a in args:
+            self.shares_block(a)
         ret = self.defret[nm]
         self.feat("def:call")
         if ret == "T" and self.rnd.random() < 0.7:
@@ -1744,7 +1814,7 @@ def tuplify(x):
     return x
 
 
-STMT_KINDS = {"cp", "decl", "declplain", "refdecl", "assign", "assign_undef", "touch", "cxxcall", "declcall", "keep", "release", "push", "popback", "clear",
+STMT_KINDS = {"reseat", "cp", "decl", "declplain", "refdecl", "assign", "assign_undef", "touch", "cxxcall", "declcall", "keep", "release", "push", "popback", "clear",
               "erase", "mapset", "attrset", "callf", "calld", "callbound", "block", "if", "cfor", "breakif", "continueif", "rfor", "try", "throw", "fail",
               "return", "expr"}
 EXPR_KINDS = {"var", "ctor", "factory", "cxx", "reffn", "elem", "attr", "vec", "map", "owner", "dynobj", "lambda", "bind", "call", "seed"}
@@ -1972,7 +2042,7 @@ def check(tier, seed):
             probe = vlib.Check("C11", tier, seed)
             for case, i, s, m in zip(batch, impl, spec, mech):
                 judge(probe, case, i, s, m)
-            if len(probe.failures) >= 3:
+            if len(probe.failures) >= 2:
                 c.extra["generated_programs_skipped"] = "the regression corpus already fails on %d programs" % len(probe.failures)
                 break
     seen = set()
